@@ -223,13 +223,14 @@ Proof.
 Qed.
 
 (** pNew->m_pNext.store( .. ): the node is still private *)
-Lemma Inv_st_next_priv g a tr t v n pnx p :
+Lemma Inv_st_next_priv g a tr t v n pnx p inG idx hl :
   Inv g a tr ->
-  views a t = mkTV (PPend (Enq v)) (Some n) pnx [] [] 0 ->
-  Inv (set_next g n p) (auxv a t (mkTV (PPend (Enq v)) (Some n) p [] [] 0)) tr.
+  views a t = mkTV (PPend (Enq v)) (Some n) pnx inG idx hl ->
+  Inv (set_next g n p) (auxv a t (mkTV (PPend (Enq v)) (Some n) p inG idx hl)) tr.
 Proof.
   intros [H1 H2 H3 H4 H5 H6 H7 H8 H9 H10] Hv.
-  destruct (H8 t) as (P1 & _). rewrite Hv in P1. cbn in P1. destruct (P1 n eq_refl) as (A & B & C & D).
+  destruct (H8 t) as (P1 & P2 & P3 & P4). rewrite Hv in P1, P2, P3, P4. cbn in P1, P2, P3, P4.
+  destruct (P1 n eq_refl) as (A & B & C & D).
   assert (Hagree : forall x, In x (GG a) -> upd (nxt g) n p x = nxt g x).
   { intros x Hx. unfold upd. destruct (Nat.eqb_spec x n) as [->|]; [contradiction|reflexivity]. }
   constructor; unfold auxv, GG in *; cbn [set_next dpre bnd live hidx views head tail nxt val nalloc]; auto.
@@ -237,7 +238,7 @@ Proof.
   - intros x Hx. rewrite Hagree; auto. apply in_or_app. now left.
   - intros x Hx. rewrite Hagree; auto. apply in_or_app. now right.
   - intros x. others x t Hne.
-    + split; [|facts_nil].
+    + split; [|split; [exact P2|split; [exact P3|exact P4]]].
       cbn. intros m E. injection E as <-. unfold upd. rewrite Nat.eqb_refl. auto.
     + eapply tv_ok_mono; [apply H8| | | |]; unfold GG; cbn [set_next dpre bnd live hidx views head tail nxt val nalloc]; auto.
       intros m Em Hm Hm1. repeat split; auto. unfold upd. destruct (Nat.eqb_spec m n) as [->|]; [|reflexivity].
@@ -406,8 +407,11 @@ Proof.
   - intros x Hx. unfold upd. destruct (Nat.eqb_spec x tl) as [->|]; [exfalso; eapply Hpre; eauto|auto].
   - intros x Hx. unfold upd. destruct (Nat.eqb_spec x tl) as [->|]; [reflexivity|].
     rewrite Elive in Hx. assert (Hx' : x = n \/ In x (bnd a :: live a)).
-    { rewrite Epost. apply in_app_or in Hx. destruct Hx as [Hx|[Hx|[Hx|Hx]]]; auto; right; apply in_or_app; auto.
-      right. right. exact Hx. }
+    { rewrite Epost. apply in_app_or in Hx. destruct Hx as [Hx|[Hx|[Hx|Hx]]].
+      - right. apply in_or_app. now left.
+      - congruence.
+      - left. congruence.
+      - right. apply in_or_app. right. right. exact Hx. }
     destruct Hx' as [->|Hx']; [now rewrite C|auto].
   - intros x Hx. rewrite EG2 in Hx. apply in_insert_inv in Hx. destruct Hx as [->|Hx]; [exact A|].
     apply H5. rewrite EG1. exact Hx.
@@ -422,8 +426,6 @@ Proof.
            ++ apply (H9 x t n Hne2 Em). now rewrite Hv.
            ++ apply Hm1. rewrite EG1. exact Hi.
         -- unfold upd. destruct (Nat.eqb_spec m tl) as [->|]; [contradiction|reflexivity].
-      * intros m Hm. unfold GG. cbn. fold lv'. auto.
-      * intros x0 i E Hi. unfold GG. cbn. fold lv'. split; auto.
   - apply privs_upd; [exact H9|]. cbn. discriminate.
   - unfold lv'. rewrite map_app. cbn [map]. rewrite <- firstn_map, <- skipn_map, <- D.
     rewrite <- (app_nil_r (hist tr)).
@@ -432,4 +434,108 @@ Proof.
     + intros x. cbn. unfold pupd. destruct (Nat.eqb_spec x t) as [->|Hne2];
         [rewrite updv_same; reflexivity|now rewrite updv_other].
     + intros f Hf. cbn beta in Hf. rewrite Hv in Hf. cbn in Hf. cbn [pstep]. rewrite Hf. reflexivity.
+Qed.
+
+(** ** dequeue takes effect: the pointer leaving the boundary node gets its mark *)
+Lemma Inv_mark g a tr t inG idx hl iter j x :
+  Inv g a tr ->
+  views a t = mkTV (PPend Deq) None mnull inG idx hl -> In (iter, j) idx ->
+  nxt g iter = (Some x, false) ->
+  Inv (set_next g iter (Some x, true))
+      (auxset a (dpre a ++ [bnd a]) x (List.tl (live a)) (hidx a) t
+         (mkTV (PLin (RVal (Some (val g x)))) None mnull [] ((x, S j) :: idx) hl)) tr.
+Proof.
+  intros [H1 H2 H3 H4 H5 H6 H7 H8 H9 H10] Hv Hin Hnx.
+  destruct (H8 t) as (_ & _ & P3 & P4). rewrite Hv in P3, P4. cbn in P3, P4.
+  destruct (P3 iter j Hin) as (Ej & Hj).
+  assert (Ejm : j = List.length (dpre a)).
+  { destruct (Nat.eq_dec j (List.length (dpre a))) as [|Hne]; [assumption|exfalso].
+    unfold GG in Ej. rewrite nth_error_app1 in Ej by lia. apply nth_error_In in Ej.
+    apply H3 in Ej. rewrite Hnx in Ej. discriminate. }
+  assert (Eb : iter = bnd a).
+  { unfold GG in Ej. rewrite Ejm, nth_error_app2, Nat.sub_diag in Ej by lia. cbn in Ej. congruence. }
+  subst iter.
+  assert (Er : exists r', live a = x :: r').
+  { pose proof (linked_mid _ _ _ _ H2) as Hm. unfold nptr in Hm. rewrite Hnx in Hm. cbn in Hm.
+    destruct (live a) as [|b r']; [discriminate|]. injection Hm as <-. eauto. }
+  destruct Er as (r' & Er).
+  assert (EGG : (dpre a ++ [bnd a]) ++ x :: r' = GG a).
+  { unfold GG. rewrite Er, <- app_assoc. reflexivity. }
+  assert (Hbx : forall y, In y (dpre a) \/ In y (x :: r') -> y <> bnd a).
+  { intros y Hy ->. unfold GG in H1. rewrite Er in H1. apply NoDup_remove_2 in H1. apply H1.
+    apply in_or_app. exact Hy. }
+  constructor; unfold auxset, GG; cbn [set_next dpre bnd live hidx views head tail nxt val nalloc];
+    rewrite ?Er; cbn [List.tl]; rewrite ?EGG; auto.
+  - eapply linked_ext; [|exact H2]. intros y Hy. unfold nptr. cbn. unfold upd.
+    destruct (Nat.eqb_spec y (bnd a)) as [->|]; [now rewrite Hnx|reflexivity].
+  - intros y Hy. unfold upd. destruct (Nat.eqb_spec y (bnd a)) as [->|Hne]; [reflexivity|].
+    apply in_app_or in Hy. destruct Hy as [Hy|[Hy|[]]]; [auto|congruence].
+  - intros y Hy. unfold upd. destruct (Nat.eqb_spec y (bnd a)) as [->|Hne].
+    + exfalso. eapply Hbx; eauto.
+    + apply H4. rewrite Er. now right.
+  - destruct H6 as (E1 & E2). split; [exact E1|]. rewrite app_length. cbn. lia.
+  - intros y. others y t Hny.
+    + split; [cbn; intros; discriminate|]. split; [cbn; intros ? []|]. split; [|cbn; exact P4].
+      cbn. intros y i [E|Hi].
+      * injection E as <- <-. unfold GG. cbn. rewrite EGG. split; [|rewrite app_length; cbn; lia].
+        eapply linked_nth; [exact H2|exact Ej|]. unfold nptr. now rewrite Hnx.
+      * destruct (P3 y i Hi) as (A1 & A2). unfold GG. cbn. rewrite EGG. split; [exact A1|].
+        rewrite app_length. cbn. lia.
+    + eapply tv_ok_mono; [apply H8| | | |]; cbn [set_next dpre bnd live hidx views head tail nxt val nalloc]; auto.
+      * intros m Em Hm Hm1. repeat split; auto.
+        -- unfold GG. cbn. rewrite EGG. exact Hm1.
+        -- unfold upd. destruct (Nat.eqb_spec m (bnd a)) as [->|]; [|reflexivity].
+           exfalso. apply Hm1. unfold GG. apply in_or_app. right. now left.
+      * intros m Hm. unfold GG. cbn. rewrite EGG. exact Hm.
+      * intros y0 i E Hi. unfold GG. cbn. rewrite EGG. split; [exact E|]. rewrite app_length. cbn. lia.
+  - apply privs_upd; [exact H9|]. cbn. discriminate.
+  - rewrite Er in H10. cbn [map] in H10. rewrite <- (app_nil_r (hist tr)).
+    change (@nil (hev Fifo)) with (perase [PDeq t]).
+    eapply pool_ext; [|eapply pool_event with (t := t) (s' := PLin (RVal (Some (val g x)))); [exact H10|]].
+    + intros y. cbn. unfold pupd. destruct (Nat.eqb_spec y t) as [->|Hny];
+        [rewrite updv_same; reflexivity|now rewrite updv_other].
+    + intros f Hf. cbn beta in Hf. rewrite Hv in Hf. cbn in Hf. cbn [pstep]. rewrite Hf. reflexivity.
+Qed.
+
+(** ** free_chain moves head forward inside the deleted prefix *)
+Lemma Inv_headcas g a tr t h i nh j :
+  Inv g a tr ->
+  In (h, i) (tv_idx (views a t)) -> In (nh, j) (tv_idx (views a t)) -> (i < j)%nat ->
+  head g = h ->
+  Inv (set_head g nh) (auxset a (dpre a) (bnd a) (live a) j t (views a t)) tr.
+Proof.
+  intros [H1 H2 H3 H4 H5 H6 H7 H8 H9 H10] Hi Hj Hlt Hh.
+  destruct (H8 t) as (P1 & P2 & P3 & P4).
+  destruct (P3 h i Hi) as (Ei & Li). destruct (P3 nh j Hj) as (Ej & Lj).
+  destruct H6 as (E1 & E2).
+  assert (Ehi : hidx a = i).
+  { apply (proj1 (NoDup_nth_error (GG a)) H1).
+    - apply nth_error_Some. congruence.
+    - rewrite E1, Ei. congruence. }
+  constructor; unfold auxset, GG in *; cbn [set_head dpre bnd live hidx views head tail nxt val nalloc]; auto.
+  - intros y. others y t Hny.
+    + split; [exact P1|]. split; [exact P2|]. split; [exact P3|]. cbn. lia.
+    + eapply tv_ok_mono; [apply H8| | | |]; unfold GG; cbn [set_head dpre bnd live hidx views head tail nxt val nalloc]; auto.
+      lia.
+  - apply privs_upd; [exact H9|]. intros n E y Hy. apply (H9 t y n); auto.
+  - apply pool_upd; auto.
+Qed.
+
+(** ** initial state *)
+Definition v_idle : tview := mkTV PIdle None mnull [] [] 0.
+Definition aux0 : Aux := mkAux [] 0 [] 0 (fun _ => v_idle).
+
+Lemma Inv_init : Inv init aux0 [].
+Proof.
+  constructor; unfold GG; cbn.
+  - constructor; [intros []|constructor].
+  - auto.
+  - intros x [].
+  - intros x [<-|[]]. reflexivity.
+  - intros n [<-|[]]. lia.
+  - split; [reflexivity|lia].
+  - now left.
+  - intros t. facts_nil.
+  - intros; discriminate.
+  - apply pool_init.
 Qed.
